@@ -276,6 +276,7 @@ pub struct Sim<'a> {
     pub ctx: Ctx,
     pub ds: &'a DatasetSpec,
     pub costs: Vec<BrokerCost>,
+    pub cost_specs: Vec<CostSpec>,
     pub sh: Rc<Shared>,
     pub brkr: UistBroker<SimClient>,
     pub bt: u64,
@@ -312,6 +313,7 @@ impl<'a> Sim<'a> {
             ctx,
             ds: &case.dataset,
             costs,
+            cost_specs: case.costs.clone(),
             sh,
             brkr,
             bt,
@@ -588,8 +590,31 @@ fn is_buy(t: OrderType) -> bool {
     matches!(t, OrderType::MarketBuy | OrderType::LimitBuy | OrderType::StopBuy)
 }
 
+/// The cost model as the properties state it (C12/C13): costs apply in list order, each to what the
+/// previous ones left: per-share moves the price against the trader, percentage scales the budget,
+/// flat is subtracted from the budget. Written out here so that the sizing oracle does not depend on
+/// the library's own `trade_impact_total`.
+pub fn impact_total(costs: &[CostSpec], budget: f64, price: f64, is_buy: bool) -> (f64, f64) {
+    let mut b = budget;
+    let mut p = price;
+    for c in costs {
+        match c {
+            CostSpec::PerShare(v) => {
+                if is_buy {
+                    p += v.0;
+                } else {
+                    p -= v.0;
+                }
+            }
+            CostSpec::Pct(v) => b *= 1.0 - v.0,
+            CostSpec::Flat(v) => b -= v.0,
+        }
+    }
+    (b, p)
+}
+
 /// C12: the orders the property prescribes, from the broker's own reported values.
-pub fn expected_diff(o: &Obs, costs: &[BrokerCost], weights: &[(String, f64)]) -> (Vec<(String, bool, f64)>, bool, bool) {
+pub fn expected_diff(o: &Obs, costs: &[CostSpec], weights: &[(String, f64)]) -> (Vec<(String, bool, f64)>, bool, bool) {
     let mut out = Vec::new();
     let mut zero_gap = false;
     let mut negative_budget = false;
@@ -602,7 +627,7 @@ pub fn expected_diff(o: &Obs, costs: &[BrokerCost], weights: &[(String, f64)]) -
         }
         let Some(q) = o.quotes.get(sym) else { continue };
         if gap > 0.0 {
-            let (nb, np) = BrokerCost::trade_impact_total(costs, &gap.abs(), &q.1, true);
+            let (nb, np) = impact_total(costs, gap.abs(), q.1, true);
             if nb < 0.0 {
                 negative_budget = true;
             }
@@ -611,7 +636,7 @@ pub fn expected_diff(o: &Obs, costs: &[BrokerCost], weights: &[(String, f64)]) -
                 out.push((sym.clone(), true, shares));
             }
         } else {
-            let (nb, np) = BrokerCost::trade_impact_total(costs, &gap.abs(), &q.0, false);
+            let (nb, np) = impact_total(costs, gap.abs(), q.0, false);
             if nb < 0.0 {
                 negative_budget = true;
             }
@@ -986,6 +1011,39 @@ impl<'a> Sim<'a> {
         }
         if o0.failed {
             rule!(self.ctx, "C09", "failed-inert", "check", out.arrivals.is_empty(), "check() in Failed state sent {} orders to the exchange", out.arrivals.len());
+            // fills already in flight are still reconciled: judged on this tick's deltas only, so that
+            // an earlier ledger divergence (C04/C05's subject) is not charged here
+            let mut dcash = 0.0;
+            let mut dhold: BTreeMap<String, f64> = BTreeMap::new();
+            for t in &out.tick_trades {
+                match t.typ {
+                    TradeType::Buy => {
+                        dcash -= t.value;
+                        *dhold.entry(t.symbol.clone()).or_insert(0.0) += t.quantity;
+                    }
+                    TradeType::Sell => {
+                        dcash += t.value;
+                        *dhold.entry(t.symbol.clone()).or_insert(0.0) -= t.quantity;
+                    }
+                }
+            }
+            let scale = o0.cash.abs().max(o1.cash.abs()).max(1.0);
+            rule!(
+                self.ctx, "C09", "failed-fills-reconciled", "cash", ((o1.cash - o0.cash) - dcash).abs() <= 1e-9 * scale,
+                "check() in Failed state: cash moved {:?} -> {:?} but the {} fills of this tick are worth {:?}", o0.cash, o1.cash, out.tick_trades.len(), dcash
+            );
+            let mut ok = true;
+            for (s, d) in &dhold {
+                let before = o0.holdings.get(s).copied().unwrap_or(0.0);
+                let after = o1.holdings.get(s).copied().unwrap_or(0.0);
+                if ((after - before) - d).abs() > 1e-6 * before.abs().max(after.abs()).max(1.0) {
+                    ok = false;
+                }
+            }
+            rule!(self.ctx, "C09", "failed-fills-reconciled", "holdings", ok, "check() in Failed state: holdings {{{}}} -> {{{}}} do not reflect this tick's fills {:?}", fmt_map(&o0.holdings), fmt_map(&o1.holdings), dhold);
+            if !out.tick_trades.is_empty() {
+                self.ctx.nontrivial |= self.ctx.focus == "C09";
+            }
         }
         self.generic_rules(&o1, "check");
         self.abstract_state(&o1);
@@ -999,7 +1057,7 @@ impl<'a> Sim<'a> {
         }
         let map1 = realise(&w);
         let got1 = self.brkr.diff_brkr_against_target_weights(&map1);
-        let (exp, zero_gap, negative_budget) = expected_diff(o0, &self.costs, &w);
+        let (exp, zero_gap, negative_budget) = expected_diff(o0, &self.cost_specs, &w);
         ev!(self.ctx, "diff {:?} -> {:?}", w, got1.iter().map(|o| (o.symbol.clone(), o.order_type, o.shares)).collect::<Vec<_>>());
         let sig = if zero_gap { "zero-gap" } else if negative_budget { "negative-budget" } else { "sizing" };
         if zero_gap {
